@@ -25,6 +25,7 @@ claimed["C20"] = ("other", "Finite matrix of universal constructors x argument f
 claimed["C07"] = ("other", "Bounded symbolic execution of the real reflective collator through the engine's reflect model on triples of symbolic values per type and shape: reflexivity, mirror, transitivity, natural order, depth restoration, history independence, map-order independence. Floats are IEEE terms (NaN, signed zeros included); complex numbers only at enumerated special values. Listed known findings: NaN and special complex values.", "symbolic execution of go/ssa with a reflect model + SMT (z3, cvc5 for 64-bit order / floats)", "3/C07", "The reflect model is part of the trusted base; complex magnitude/phase are outside SMT reach (special values enumerated).")
 claimed["C08"] = ("other", "Bounded symbolic execution of CompareValues/RankValues: equivalence laws, agreement with ranking, rebuilt copies equal, every single-point mutation unequal (symbolic replacement leaf: equal iff leaf equal), cyclic values end in the depth-limit panic and the same collator keeps working, List/Set membership agreement.", "symbolic execution of go/ssa with a reflect model + SMT (z3, cvc5)", "3/C08")
 claimed["C12"] = ("other", "Bounded symbolic execution of the real ParseSource (scanner goroutine under a coroutine scheduler, token queue, regex VM over the real regexp/syntax program, parser) on every string of L arbitrary bytes, on every prefix / single-byte substitution / deletion of five valid documents with an arbitrary byte, on context mismatches and on long tails after an error: returns or a located textual diagnostic, never a run-time error, no goroutine left.", "symbolic execution of go/ssa (goroutines as coroutines, regex VM) + SMT (z3)", "3/C12", "Canonical schedule for the scanner goroutine; inputs longer than L only as the listed documents with one arbitrary byte.")
+claimed["C11"] = ("other", "Lexical level: for every token type and length the solver searches a string of the reference language (Syntax.cdsn expression definitions re-stated as combinators over symbolic bytes) that the real scanner does not scan as exactly that token. Sentence level: the real ParseSource on templates of the grammar rules (all seven contexts, inline/multi-line/empty, nesting) with symbolic digits and letters must return the intended collection; boundary literals evaluate with Go semantics, unrepresentable ones are rejected; result independent of the scanner/parser interleaving up to a schedule bound.", "symbolic execution of go/ssa (regex VM, goroutine scheduler) + SMT (z3); sentence templates enumerated", "3/C11", "Sentences are templates (the solver decides the symbolic characters only); derivations beyond the templates and tokens longer than the bound are not covered.")
 reasons = {}
 
 checks = []
